@@ -4,7 +4,6 @@
 //! concrete (boundary-class and Byzantine) witness; for a sample, the key
 //! generated without a witness by the real key generator must verify a real
 //! proof made from the witness.
-use midnight_curves::Fq;
 use midnight_proofs::circuit::Value as CValue;
 use midnight_zk_stdlib::MidnightCircuit;
 use serde::{Deserialize, Serialize};
@@ -59,7 +58,7 @@ impl Check for C09 {
     }
     fn generate(&self, rng: &mut Prng, _tier: Tier, idx: u64) -> Value {
         let all = ops::all_ops();
-        let op = all[(idx as usize) % all.len()];
+        let op = &all[(idx as usize) % all.len()];
         let case = ops::gen_case(rng, op);
         let inner = opcheck::Scn { case, fault_seed: rng.u64(), n_plans: 4, only: None };
         serde_json::to_value(Scn { inner, real: idx % 12 == 0 }).unwrap()
@@ -77,7 +76,7 @@ impl Check for C09 {
             }
             other => return other,
         }
-        if s.real && ops::admissible(&s.inner.case) {
+        if s.real && ops::expected_admissible(&s.inner.case) {
             return real_pipeline(&s.inner.case, st);
         }
         Verdict::Pass
@@ -93,7 +92,7 @@ impl Check for C09 {
 
 fn real_pipeline(case: &ops::OpCase, st: &mut Stats) -> Verdict {
     let rel = OpRel { case: case.clone() };
-    let ins: Vec<Fq> = case.ins.iter().map(|x| x.0).collect();
+    let ins = ops::witness(case);
     let k = match opcheck::min_k(case) {
         Ok(k) => k,
         Err(e) => return Verdict::Harness(e),
